@@ -83,8 +83,8 @@ class C20(Property):
     assumptions = (
         "WeightedSum producers publish on a grid that contains every consumer request time, so the nearest publication is exact",
     )
-    cases = {"quick": 1800, "thorough": 30000}
-    min_nontrivial = {"quick": 600, "thorough": 6000}
+    cases = {"quick": 1800, "thorough": 200000}
+    min_nontrivial = {"quick": 600, "thorough": 40000}
 
     def gen(self, rnd, i, tier):
         kind = ("static", "pull", "wsum")[i % 3]
